@@ -8,6 +8,7 @@
              | OPEN <hexs> <hexd> <par> <tit>
    run <cfg: always_prs always_branches use_queue as 3 bits> <prs> <branches> <event> // <event> ...
         -> OK <prs> <branches>  |  ERR <constructor>
+   target <cfg> <prs> <branches> <event>     -> id of the user pull request the event ends up evaluating, or -
    check <prs> <branches>                    -> 4 bits: well_formed distinct_src one_to_one no_user_w
    declspec <prs> <branches> <hexs> <hexv,hexv,...>   -> OK <prs> <branches>   (spec_after_decline) *)
 let split c s = if s = "-" || s = "" then [] else String.split_on_char c s
@@ -69,6 +70,9 @@ let () = iter_lines (fun l ->
     let c = { always_prs = bit cfgbits 0; always_branches = bit cfgbits 1; use_queue = bit cfgbits 2 } in
     let es = List.map parse_event (List.filter (fun e -> e <> []) (split_events [] [] evs)) in
     (match run c (parse_world prs brs) es with Ok w -> "OK " ^ show_world w | Err e -> "ERR " ^ show_err e)
+  | "target" :: cfgbits :: prs :: brs :: ev ->
+    let c = { always_prs = bit cfgbits 0; always_branches = bit cfgbits 1; use_queue = bit cfgbits 2 } in
+    show_optz (evaluated_pr c (parse_world prs brs) (parse_event ev))
   | ["check"; prs; brs] ->
     let w = parse_world prs brs in
     word_of_bool (well_formed_b w) ^ word_of_bool (distinct_src_b w) ^ word_of_bool (one_to_one_b w)
